@@ -81,6 +81,20 @@ type RenderOpts struct {
 	// ColText overrides the rendering of specific column names (used for
 	// pseudo-columns such as aggregate calls in HAVING).
 	ColText map[string]string
+	// NumText overrides the spelling of specific numeric constants (1.5 as
+	// "1.50", 1000000 as "1e6", 7 as "007").
+	NumText map[float64]string
+}
+
+// Lit renders a constant.
+func (o RenderOpts) Lit(v any) string {
+	if f, ok := v.(float64); ok {
+		if t, ok := o.NumText[f]; ok {
+			o.feat("const.spelled")
+			return t
+		}
+	}
+	return SQLLit(v, o.StrStyle)
 }
 
 func (o RenderOpts) feat(f string) {
@@ -103,7 +117,7 @@ func (o RenderOpts) operand(x Operand) string {
 	if x.IsCol {
 		return o.Col(x.Col)
 	}
-	return SQLLit(x.Lit, o.StrStyle)
+	return o.Lit(x.Lit)
 }
 
 var opFeat = map[string]string{"=": "eq", "!=": "ne", "<": "lt", "<=": "le", ">": "gt", ">=": "ge"}
@@ -151,7 +165,7 @@ func RenderPred(p Pred, o RenderOpts) string {
 	case In:
 		items := make([]string, len(t.Items))
 		for i, it := range t.Items {
-			items[i] = SQLLit(it, o.StrStyle)
+			items[i] = o.Lit(it)
 		}
 		if t.Neg {
 			o.feat("notin")
@@ -173,10 +187,10 @@ func RenderPred(p Pred, o RenderOpts) string {
 	case Between:
 		if t.Neg {
 			o.feat("notbetween")
-			return o.Col(t.Col) + " NOT BETWEEN " + SQLLit(t.Lo, o.StrStyle) + " AND " + SQLLit(t.Hi, o.StrStyle)
+			return o.Col(t.Col) + " NOT BETWEEN " + o.Lit(t.Lo) + " AND " + o.Lit(t.Hi)
 		}
 		o.feat("between")
-		return o.Col(t.Col) + " BETWEEN " + SQLLit(t.Lo, o.StrStyle) + " AND " + SQLLit(t.Hi, o.StrStyle)
+		return o.Col(t.Col) + " BETWEEN " + o.Lit(t.Lo) + " AND " + o.Lit(t.Hi)
 	case Like:
 		if t.Neg {
 			o.feat("notlike")
